@@ -198,8 +198,7 @@ def check(run):
     run.sample({"case": cases[k][:300], "impl": io[k][:400]})
     run.sample({"case": cases[0][:300], "impl": io[0][:400]})
     report_diffs(run, diffs, "coq/Client.v (virtual time)", "zvt_feig_terminal::stream under tokio's paused clock", "client")
-    if any(not v.get("no_failing_input_found") for v in run.violations):
-        run.violations = [v for v in run.violations if not v.get("no_failing_input_found")]
+    vlib.prefer_concrete(run)
     return vlib.finish(run, trusted_base=TB, assumptions=["partial: tokio timers / paused clock; OS-level connect and write back-pressure are not in the model",
                                                            "virtual elapsed times of the real client equal the model's to the millisecond (compared)"])
 
